@@ -1004,7 +1004,7 @@ int32 psX509ParseCRL(psPool_t *pool, psX509Crl_t **crl, unsigned char *crlBin,
     p += timelen;   /* Move p beyond thisUpdate TIME. */
 
     /* nextUpdateTIME - Optional... but required by spec */
-    if ((end - p) < 1 || ((*p == ASN_UTCTIME) || (*p == ASN_GENERALIZEDTIME)))
+    if ((end - p) >= 1 && ((*p == ASN_UTCTIME) || (*p == ASN_GENERALIZEDTIME)))
     {
         lcrl->nextUpdateType = timetag = *p;
         p++;
